@@ -593,7 +593,7 @@ class Unit:
             oid = '%s/%s/assert#%d' % (self.name, fid, acount)
             has_assert = re.search(r'\bassert\b', rs.mask(text)) is not None
             if has_assert:
-                self.obligations[oid] = {'props': props, 'kind': 'assert', 'fn': fid, 'text': ' '.join(text.split())[:300]}
+                self.obligations[oid] = {'props': props, 'kind': 'assert', 'fn': fid, 'text': ' '.join(text.split())[:300], 'property_level': '@property' in text}
             inserts.append((pos, [Seg('\n' + text + '\n', fn=fid, clause=(oid if has_assert else None), kind='ghost')]))
         for (n, needle, side, text) in block.get('ats', []):
             pos = _nth(body, needle, n, spec)
@@ -603,7 +603,7 @@ class Unit:
             oid = '%s/%s/assert#%d' % (self.name, fid, acount)
             has_assert = re.search(r'\bassert\b', rs.mask(text)) is not None
             if has_assert:
-                self.obligations[oid] = {'props': props, 'kind': 'assert', 'fn': fid, 'text': ' '.join(text.split())[:300]}
+                self.obligations[oid] = {'props': props, 'kind': 'assert', 'fn': fid, 'text': ' '.join(text.split())[:300], 'property_level': '@property' in text}
             inserts.append((pos, [Seg('\n' + text + '\n', fn=fid, clause=(oid if has_assert else None), kind='ghost')]))
         inserts.sort(key=lambda x: x[0])
         # header
@@ -616,7 +616,7 @@ class Unit:
                 self.segs.append(Seg('\n', fn=fid))
                 self.segs.extend(self.contract_segs(fid, ctext, '', props))
             self.obligations['%s/%s/safety' % (self.name, fid)] = {
-                'props': props, 'kind': 'safety', 'fn': fid,
+                'props': props, 'kind': 'safety', 'fn': fid, 'property_level': True,
                 'text': 'body of %s: no overflow, index/slice in range, callee preconditions, termination measures' % fid}
             self.segs.append(Seg('', fn=fid, kind='canary-slot'))
         last = 0
@@ -635,7 +635,11 @@ class Unit:
                 continue
             counters[sec] = counters.get(sec, 0) + 1
             oid = '%s/%s/%s%s#%d' % (self.name, fid, prefix, sec, counters[sec])
-            self.obligations[oid] = {'props': props, 'kind': sec, 'fn': fid, 'text': ' '.join(t.split()).rstrip(',')[:300]}
+            # function-level ensures are property-level; loop invariants / loop ensures are proof-internal
+            # unless the clause carries the marker `@property` in a comment
+            plevel = (prefix == '' and sec == 'ensures') or ('@property' in t)
+            self.obligations[oid] = {'props': props, 'kind': sec if prefix == '' else 'loop-' + sec, 'fn': fid,
+                                     'text': ' '.join(t.split()).rstrip(',')[:300], 'property_level': plevel}
             segs.append(Seg(t, fn=fid, clause=oid, kind='contract:' + sec))
         return segs
 
